@@ -26,7 +26,7 @@ Proof. reflexivity. Qed.
    EXISTING user: switch dup_relock), or the repaired shape (check first, no RemoveHandler) *)
 Lemma tie_addSignalUser : In f_sig_addSignalUser
   [ "e.MakeHandler ; o.signalsMutex.Lock ; o.signalsMutex.Unlock ; user.context.EndPoint().RemoveHandler ; o.signalsMutex.Unlock";
-    "o.signalsMutex.Lock ; o.signalsMutex.Unlock ; e.MakeHandler ; o.signalsMutex.Unlock" ].
+    "o.signalsMutex.Lock ; o.signalsMutex.Unlock ; o.signalsMutex.Unlock ; e.MakeHandler ; o.signalsMutex.Lock ; o.signalsMutex.Unlock" ].
 Proof. cbv; auto. Qed.
 
 (* UpdateSignal: snapshot under RLock, sends after RUnlock (switch snapshot_send: LEmitSnap / LEmitSend),
